@@ -72,6 +72,51 @@ pub fn signature_matches(sig: &str, sc: &Scenario, out: &RunOutput, v: &Violatio
             v.offset.zip(v.aux).is_some_and(|(read, expected)| read != expected)
                 && v.wnode.is_some_and(|w| resegmented_after_delivery(out).iter().any(|(t, src, _)| *t <= v.t && *src == sc.addr(w)))
         }
+        // F1 seen on the wire by the sender-side oracle: the very sequence number that is
+        // re-emitted after its acknowledgement (v.offset) is one that was delivered in one length
+        // and emitted in another (the acknowledgement of the delivered probe was not honoured
+        // because the probe had been popped).
+        "this-seq-delivered-probe-resegmented" => {
+            v.offset.is_some_and(|s| resegmented_after_delivery(out).iter().any(|(t, _, p)| *t <= v.t && p.seq as u64 == s))
+        }
+        // F1 seen from the sender's writer: the probe was delivered before the violation instant
+        // and the sender cut that sequence number differently at some point of the run (the
+        // acknowledgement of the delivered probe found the segment already popped and was not
+        // honoured, so the blocked writer is not woken by it).
+        "delivered-probe-popped-before-its-ack" => {
+            use crate::hist::Ev;
+            let mut delivered: std::collections::HashMap<(std::net::SocketAddr, u16, u16), usize> = Default::default();
+            for (t, ev) in &out.hist.evs {
+                if *t > v.t {
+                    break;
+                }
+                if let Ev::Deliver(d) = ev {
+                    if let Some(p) = &d.pkt {
+                        if p.typ == crate::codec::ST_DATA && !d.corrupted {
+                            delivered.entry((d.src, p.conn_id, p.seq)).or_insert(p.payload.len());
+                        }
+                    }
+                }
+            }
+            let recut = out.hist.evs.iter().any(|(_, ev)| match ev {
+                Ev::Emit(e) if e.real => e.pkt.as_ref().is_some_and(|p| p.typ == crate::codec::ST_DATA && delivered.get(&(e.src, p.conn_id, p.seq)).is_some_and(|l| *l != p.payload.len())),
+                _ => false,
+            });
+            // or the run ends before the bytes are cut again: at the violation instant an ACK
+            // for a delivered data packet S reaches its sender whose end-of-poll snapshot shows
+            // last_sent_seq_nr < S (the probe was taken back: S counts as never sent)
+            let taken_back = out.hist.evs.iter().filter(|(t, _)| *t == v.t).any(|(_, ev)| match ev {
+                Ev::Deliver(d) if !d.corrupted => d.pkt.as_ref().is_some_and(|a| {
+                    delivered.keys().any(|(src, _, s)| *src == d.dst && *s == a.ack)
+                        && out.hist.evs.iter().filter(|(t, _)| *t == v.t).any(|(_, e2)| match e2 {
+                            Ev::Probe(librqbit_utp::verif::ProbeEvent::ConnPoll(sn)) => sn.key.local == d.dst && crate::util::seq_lt(sn.last_sent_seq_nr, a.ack),
+                            _ => false,
+                        })
+                }),
+                _ => false,
+            });
+            recut || taken_back
+        }
         // F7 (same root cause as F1): a popped MTU probe is re-cut into MORE segments after the
         // connection already assigned its FIN the next sequence number (fin-wait-1): a data
         // segment takes the FIN's number, the FIN is never sent, the closer gives up 1 s later
